@@ -366,6 +366,8 @@ func (res *CheckResult) checkExpression(lit parser.ValueExpr, requiredType strin
 		res.assertHasType(lit, requiredType, TypeAsset)
 	case *parser.NumberLiteral:
 		res.assertHasType(lit, requiredType, TypeNumber)
+	case *parser.BigNumberLiteral:
+		res.assertHasType(lit, requiredType, TypeNumber)
 	case *parser.StringLiteral:
 		res.assertHasType(lit, requiredType, TypeString)
 	case *parser.BinaryInfix:
